@@ -413,6 +413,8 @@ def _join_scenarios(chk, m, rule="R6v"):
          dict(on=[("id", "boss_id")], expect_right=["boss_id_r", "id_r", "salary_r"]), ("names",)),
         ("same-named keys only clash", cols("id", "dept"), cols("id", "salary"), "r",
          dict(on=[("id", "id")], expect_right=["id_r", "salary"]), ("names",)),
+        ("a non-key right column clashes and the suffixed name of another right column exists on the left", cols("a", "b_r", "c"), cols("a", "b", "c"), "r",
+         dict(on=[("a", "a")]), ("names",)),
         ("disjoint names", cols("a", "b"), cols("c", "d"), "r", {}, ("names",)),
         ("one clashing name", cols("a", "b"), cols("a", "c"), "r", {}, ("names",)),
         ("suffixed name exists on the left", cols("a", "a_r"), cols("a"), "r", {}, ("names",)),
@@ -481,6 +483,7 @@ def _join_scenarios(chk, m, rule="R6v"):
                     ok, detail = False, "join returned without updating the cache"
                 except Accepted as a_:
                     lcache, _node, rcache = a_.args_
+                    trace_ = getattr(_node, "_cs_trace", None)
                     ln = list(lcache.attrs["name_to_uuid"])
                     rn_ = list(rcache.attrs["name_to_uuid"])
                     problems = []
@@ -490,6 +493,9 @@ def _join_scenarios(chk, m, rule="R6v"):
                         problems.append(f"right names not unique / lost: {rn_}")
                     if set(rn_) & set(ln):
                         problems.append(f"names {sorted(set(rn_) & set(ln))} occur in both inputs after suffixing")
+                    if trace_ is not None and trace_ != ["left", "right"]:
+                        problems.append(f"the Join node that reaches Cache.update went through check_subquery for {trace_} only: the node rebuilt for the "
+                                        "other input (its subquery marker) is thrown away, that input is folded into the SELECT without its subquery")
                     if kw.get("expect_right") and rn_ != kw["expect_right"]:
                         problems.append(f"right columns are named {rn_}, documented {kw['expect_right']} (only the clashing join columns are renamed when nothing else clashes, otherwise every right column gets the suffix)")
                     ok, detail = not problems, "; ".join(problems) or f"right names {rn_}"
